@@ -84,9 +84,9 @@ func init() {
 
 func runHistx(ctx *core.Ctx, tier string) {
 	// passes: (history depth, deviation budget)
-	passes := [][2]int{{3, 1}}
+	passes := [][2]int{{3, 0}, {2, 1}}
 	if tier == "thorough" {
-		passes = [][2]int{{4, 1}, {2, 2}}
+		passes = [][2]int{{4, 0}, {3, 1}, {2, 2}}
 	}
 	shard, nshards := shardInfo()
 	var rules []string
@@ -102,6 +102,7 @@ func runHistx(ctx *core.Ctx, tier string) {
 	}
 	ctx.Rep.Trans, ctx.Rep.Validated, ctx.Rep.Evals, ctx.Rep.Nontrivial = trans, trans, trans, nontriv
 	ctx.Rep.Extra["passes_depth_deviations"] = passes
+	ctx.Rep.Extra["closure_reached"] = false // stays false: recycled objects remember their last input, states keep multiplying (24 k new at level 3, 290 k at level 4 even with default pool answers)
 }
 
 func shardInfo() (int, int) {
@@ -253,8 +254,8 @@ func histShard(ctx *core.Ctx, tier string, maxDepth, bound, shard, nshards int) 
 		depthDone = depth
 		ctx.Count(fmt.Sprintf("new_states_at_depth_%d", depth), int64(len(next)))
 		frontier = next
-		if len(next) == 0 {
-			closure = true
+		if len(next) == 0 && depth < maxDepth {
+			closure = true // no unseen state at a level whose states were all fingerprinted: every longer history repeats a shorter one
 		}
 	}
 out:
